@@ -33,6 +33,7 @@ mod dom_cdc;
 mod dom_assign;
 mod dom_wide;
 mod dom_engexpr;
+mod dom_engines;
 mod dom_swap;
 mod dom_reuse;
 
@@ -52,6 +53,7 @@ fn main() {
         "synth" => dom_synth::main(&opts),
         "wide" => dom_wide::main(&opts),
         "engexpr" => dom_engexpr::main(&opts),
+        "engines" => dom_engines::main(&opts),
         "combloop" => dom_combloop::main(&opts),
         "pretty" => dom_pretty::main(&opts),
         "fmt" => dom_fmt::main(&opts),
